@@ -174,3 +174,16 @@ reg("C13", "E2-history-bfs",
     "Histories never restore an old (inode, mtime, size) with new content (excluded by the property). A miss is "
     "always acceptable.",
     "DESIGN.md §4 C13")
+
+reg("C09", "E2-history-bfs",
+    "exhaustive enumeration of (prior workspace, target index) pairs x target form x delete x link type on the real build/md5/compare/apply, workspace walk and second compare",
+    "Every pair of 85 prior workspaces x 172 targets (quick; thorough 217 x 217) over paths {a, a/z, d, d/x, d/s, "
+    "d/s/y} - file<->directory kind changes at depth 1 and 2, two contents, exec bit - x target given as explicit "
+    "entries or as lazily loaded directory objects x delete on/off x link type {copy (all), hardlink, symlink}: "
+    "~10^5 (quick) real checkouts. With delete: workspace files == target files with target bytes, target "
+    "directories exist, no other directory survives, executable entries are executable, no error callback, and a "
+    "second compare has empty create/delete lists. Without delete: files that are not in the way of the target "
+    "survive. Targets with an unavailable source object: the entry reaches the error callback.",
+    "Old side of compare carries hashes (build+md5). chmod list of the second compare only counted. User "
+    "mutations happen between, not during, library calls.",
+    "DESIGN.md §4 C09")
